@@ -258,6 +258,23 @@ func (e *exec) Exec(op string) string {
 		return "ok"
 	case "reg", "def":
 		return "ok"
+	case "pin":
+		// the real descriptor of a root whose round trip is covered by theorem (lean/LinkVerif/Model/SerRoots.lean pins it)
+		name, _ := hx.Arg(toks, "root")
+		r := wd.byName[name]
+		if r == nil {
+			return "unknown-root"
+		}
+		out := "d=" + r.Key
+		for _, l := range r.Pream {
+			if strings.HasPrefix(l, "def ") {
+				t := hx.Tokens(l)
+				id, _ := hx.Arg(t, "id")
+				d, _ := hx.Arg(t, "d")
+				out += ";" + id + "=" + d
+			}
+		}
+		return out
 	case "cenc":
 		// every value this case has encoded so far is encoded again by several goroutines at once: the encoder's caches and
 		// scratch space are shared process-wide, the bytes must not depend on what other goroutines encode meanwhile
